@@ -111,6 +111,7 @@ def run(ctx):
     pos, _ = flows.baseline_positions("C02/base", [flowcheck.prepare(dict(certs=[fcert]))["certs"][0]])
     late = [p for p in pos if p[0] in ("finalize", "order", "cert")]
     specs += flows.single_fault_specs("C02r", fcert, late, ctx.tier, ctx.seed + 2, attempts=2, quick_stride=4)
+    specs += flowcheck.shorter_lived_specs("C02")
     results = flows.run_many(specs, workers=12)
     for x in results:
         if any(y["hung"] for y in x["runs"]):
